@@ -109,7 +109,7 @@ def run(prop, tier, replay=None):
     rnd = random.Random(A.SEED * 991 + 9)
     if replay:
         rp = json.load(open(replay))
-        recs = [rp["record"]]
+        recs = [{k: v for k, v in rp["record"].items() if k not in ("fault", "runs")}]
     else:
         inputs = capacity_inputs()
         if tier == "quick":
